@@ -58,6 +58,9 @@ class Sim:
 
     def __init__(self, seed=0, switch_prob=0.3, max_events=120000, choices=None, delay_prob=0.0, max_delay_us=0):
         self.rng = random.Random(seed)
+        # the order in which a set hands out its members is arbitrary (CPython: by object address, different in
+        # every process): the simulation fixes it per seed, so that executions repeat exactly
+        self.order_rng = random.Random((seed if isinstance(seed, int) else 0) * 7919 + 13)
         self.switch_prob = switch_prob
         self.now = 0
         self.decoy_events = []
@@ -769,14 +772,20 @@ class SimSet(set):
         op = dis.opname[fr.f_code.co_code[fr.f_lasti]]
         if op.startswith("CALL") or op in ("LIST_EXTEND", "SET_UPDATE", "UNPACK_SEQUENCE", "CONTAINS_OP"):
             s.yield_point()
-            items = list(set.__iter__(self))
+            items = self._ordered()
             s.ev("SetSnapshot", set=self._label, n=len(items), items=[_cb_label(x) for x in items])
             return iter(items)
         return self._gen()
 
+    def _ordered(self):
+        items = list(set.__iter__(self))
+        items.sort(key=lambda x: str(_cb_label(x)))
+        self._sim.order_rng.shuffle(items)
+        return items
+
     def _gen(self):
         s = self._sim
-        items = list(set.__iter__(self))
+        items = self._ordered()
         n0 = len(self)
         s.yield_point()
         s.ev("IterStart", set=self._label, n=n0)
